@@ -25,8 +25,8 @@
 (*   - no sieving stage (setup + at least one unit before the next poll    *)
 (*     in the sequential loops) is entered after some poll returned TRUE.  *)
 (* Stages that never poll (trial division, rho, P-1, ECM128, linear        *)
-(* algebra) run to their end; new ecm() levels after the flip start no     *)
-(* curve and are only counted (note).                                      *)
+(* algebra) run to their end; a new ecm() level (setup of its prime tables, *)
+(* then curves) must not be entered after the flip either.                 *)
 (***************************************************************************)
 EXTENDS BigNat, TraceLib, FiniteSets
 VARIABLE l
@@ -67,7 +67,9 @@ Judge1(i, e) ==
   /\ Strict(i, "unit_after_true_poll", "unit_after_true_poll" \notin f.bad)
   /\ Strict(i, "unit_without_poll", "unit_without_poll" \notin f.bad)
   /\ Strict(i, "sieve_stage_after_abort", "sieve_stage_after_abort" \notin f.bad)
-  /\ (f.lateEcm > 0 => Note(i, "ecm_levels_entered_after_abort", f.lateEcm))
+  \* promptness: a new ecm() level (prime tables up to its B1, then curves) must not be entered once some poll
+  \* returned TRUE (it was, on the pinned tree: seconds of table building after the request; repaired)
+  /\ Strict(i, "ecm_level_after_abort", f.lateEcm = 0)
 
 Init == l = 1
 Next == l <= NRec /\ l' = l + 1 /\ Judge1(l, Rec[l])
